@@ -331,7 +331,7 @@ func vfC05Check(c vfC05Case) error {
 		}
 	}
 	describe := func() string {
-		return fmt.Sprintf("mode=%s config=%s corpus=%v run=%q skip=%q maxServers=%d fault=%s@%s runErr=%v\nrunner stderr: %s", c.Mode, c.Config, c.Corpus, runPats, skipPats, c.MaxServers, c.ServerFault, faultTuple, runErr, errP.String())
+		return fmt.Sprintf("mode=%s config=%s corpus=%v run=%q skip=%q maxServers=%d fault=%s@%s runErr=%v\nrunner stderr: %s\nrunner output (tail): %s", c.Mode, c.Config, c.Corpus, runPats, skipPats, c.MaxServers, c.ServerFault, faultTuple, runErr, errP.String(), vfTail(logP.Full(), 2500))
 	}
 	// ---- (4)(5) server lifecycle
 	type srv struct {
@@ -363,12 +363,15 @@ func vfC05Check(c vfC05Case) error {
 			if s.stopped == 0 {
 				return verifkit.Violf("server-not-stopped", "server %q was started but never stopped\n%s", id, describe())
 			}
-			if err := syscall.Kill(s.ev.Pid, 0); err == nil {
-				// give the process a moment to be reaped
-				time.Sleep(50 * time.Millisecond)
-				if err := syscall.Kill(s.ev.Pid, 0); err == nil {
-					return verifkit.Violf("child-survives", "server process %d still exists after Run returned\n%s", s.ev.Pid, describe())
+			// After a start fault the runner asks the server to stop but does not wait for it, so the process may
+			// outlive Run by the time the signal takes to act; the scripted server exits on SIGTERM at once, and the
+			// runner escalates after its graceful-shutdown period. Only a process still there after that is a leak.
+			deadline := time.Now().Add(15 * time.Second)
+			for syscall.Kill(s.ev.Pid, 0) == nil {
+				if time.Now().After(deadline) {
+					return verifkit.Violf("child-survives", "server process %d still exists 15s after Run returned\n%s", s.ev.Pid, describe())
 				}
+				time.Sleep(20 * time.Millisecond)
 			}
 		}
 		// one server instance per selected tuple (and kind of client in server mode)
@@ -407,7 +410,7 @@ func vfC05Check(c vfC05Case) error {
 		}
 		for name, p := range selected {
 			parts := strings.Split(p.tuple, "/")
-			if parts[1] != "1" || parts[2] != "false" || p.grpc || (faultTuple != "" && p.tuple == faultTuple) {
+			if parts[1] != "1" || parts[2] != "false" || p.grpc || (faultTuple != "" && vfSameServerKind(p.tuple, faultTuple)) {
 				continue // only cleartext HTTP/1.1 is observable
 			}
 			if seen[name] != 1 {
@@ -432,7 +435,7 @@ func vfC05Check(c vfC05Case) error {
 		}
 	}
 	for name, p := range selected {
-		if faultTuple != "" && p.tuple == faultTuple && ss.Fault != "die-after-conns" {
+		if faultTuple != "" && vfSameServerKind(p.tuple, faultTuple) && ss.Fault != "die-after-conns" {
 			if len(got[name]) != 0 {
 				return verifkit.Violf("delivered-without-server", "%q was handed to the client although its server could not be started\n%s", name, describe())
 			}
@@ -442,10 +445,10 @@ func vfC05Check(c vfC05Case) error {
 			continue
 		}
 		if len(got[name]) == 0 {
-			if faultTuple != "" && p.tuple == faultTuple {
+			if faultTuple != "" && vfSameServerKind(p.tuple, faultTuple) {
 				continue // its server died: a setup failure is acceptable
 			}
-			return verifkit.Violf("not-delivered", "selected permutation %q was never handed to the client (%d of %d delivered)\n%s", name, len(got), len(selected), describe())
+			return verifkit.Violf("not-delivered", "selected permutation %q was never handed to the client (%d of %d delivered); the runner says: %s\n%s", name, len(got), len(selected), vfFailedText(logP.Full(), name), describe())
 		}
 	}
 	// ---- (2) matching, live server; request completed with the server's address and test name
@@ -574,4 +577,34 @@ func TestVerifC05Dispatch(t *testing.T) {
 		Check:    vfC05Check,
 		Classify: vfC05Classify,
 	})
+}
+
+func vfTail(s string, n int) string {
+	if len(s) > n {
+		return "..." + s[len(s)-n:]
+	}
+	return s
+}
+
+// vfFailedText returns what the runner printed about one test case.
+func vfFailedText(out, name string) string {
+	i := strings.Index(out, "FAILED: "+name+":")
+	if i < 0 {
+		return "(nothing)"
+	}
+	rest := out[i:]
+	if j := strings.Index(rest[1:], "\nFAILED: "); j >= 0 {
+		rest = rest[:j+1]
+	}
+	if len(rest) > 500 {
+		rest = rest[:500]
+	}
+	return rest
+}
+
+// vfSameServerKind: the scripted server misbehaves for every instance of the faulted protocol / HTTP version /
+// TLS combination, with or without client certificates (the fault script names those three parts only).
+func vfSameServerKind(tuple, faultTuple string) bool {
+	a, b := strings.Split(tuple, "/"), strings.Split(faultTuple, "/")
+	return len(a) >= 3 && len(b) >= 3 && a[0] == b[0] && a[1] == b[1] && a[2] == b[2]
 }
